@@ -1,6 +1,9 @@
 package main
 
-import "fmt"
+import (
+	"fmt"
+	"strings"
+)
 
 // expression-level cases for the operator properties: the same operators reached through Compile (constant folding,
 // fast marking, any peephole the optimiser applies to them) and Eval, compared with the model like every other
@@ -19,7 +22,12 @@ func evalBatchLists(c *RunCtx) *Batch {
 	probe := func() *GT {
 		switch r.Intn(7) {
 		case 0:
-			return gconst(int64(r.Intn(4)))
+			g := gconst(int64(r.Intn(4)))
+			if r.Intn(3) == 0 {
+				g = gconst(int64(r.Intn(40)) - 10)
+				g.Name = spellInt(r, g.Val.(int64))
+			}
+			return g
 		case 1:
 			return gconst([]string{"a", "b", "1", ""}[r.Intn(4)])
 		case 2:
@@ -48,8 +56,20 @@ func evalBatchLists(c *RunCtx) *Batch {
 			l := make([]int64, n)
 			for i := range l {
 				l[i] = int64(r.Intn(4))
+				if r.Intn(4) == 0 {
+					l[i] = int64(r.Intn(40)) - 10
+				}
 			}
-			return gconst(l)
+			g := gconst(l)
+			if r.Intn(3) == 0 {
+				// the same list written with other spellings of its integers (zero-padded, explicit sign): decimal all the same
+				sp := make([]string, n)
+				for i, v := range l {
+					sp[i] = spellInt(r, v)
+				}
+				g.Name = "(" + strings.Join(sp, " ") + ")"
+			}
+			return g
 		}
 	}
 	n := c.N(500, 20000)
@@ -64,6 +84,18 @@ func evalBatchLists(c *RunCtx) *Batch {
 			t = gop(pick(r, andNames), gop("in", probe(), list()), gvar(pick(r, boolVars)))
 		default:
 			t = gop("in", probe(), list())
+		}
+		// a list written with other spellings: probe it with one of its own elements (in), or meet it with a list that
+		// shares one (overlap)
+		if l := t.Ch[len(t.Ch)-1]; t.Kind == "op" && l.Kind == "const" && l.Name != "" && r.Intn(3) != 0 {
+			if il, ok := l.Val.([]int64); ok && len(il) > 0 {
+				el := il[r.Intn(len(il))]
+				if t.Name == "in" {
+					t.Ch[0] = gconst(el)
+				} else if t.Name == "overlap" {
+					t.Ch[0] = gconst([]int64{el + 100, el})
+				}
+			}
 		}
 		mask := []int{15, 0, r.Intn(16)}[r.Intn(3)]
 		rc := &RunCfg{Opts: optSubset(mask, r.Bool())}
@@ -123,4 +155,28 @@ func evalBatchOps(c *RunCtx, prop string, names []string) *Batch {
 		addEval(c, b, &EvalSpec{Tree: t, RC: rc, Bind: opsEvalBind(r), DoEval: true, Tags: []string{fmt.Sprintf("subset:%d", mask), "eval-level"}})
 	}
 	return b
+}
+
+// spellInt: a decimal spelling of v the lexer accepts: plain, zero-padded, with an explicit sign
+func spellInt(r *Rand, v int64) string {
+	if v < 0 {
+		switch r.Intn(3) {
+		case 0:
+			return fmt.Sprintf("%d", v)
+		case 1:
+			return fmt.Sprintf("-0%d", -v)
+		default:
+			return fmt.Sprintf("-00%d", -v)
+		}
+	}
+	switch r.Intn(4) {
+	case 0:
+		return fmt.Sprintf("%d", v)
+	case 1:
+		return fmt.Sprintf("0%d", v)
+	case 2:
+		return fmt.Sprintf("00%d", v)
+	default:
+		return fmt.Sprintf("+%d", v)
+	}
 }
